@@ -398,6 +398,10 @@ static std::string stepInner(const std::vector<std::string>& t, bool& encoding)
 
 int main()
 {
+  // line-buffered answers: a sanitizer abort must not swallow the answers of the operations that preceded it
+  // (ctx.lockstep attributes a crash to the first operation without an answer line)
+  static char outbuf[1 << 16];
+  std::setvbuf(stdout, outbuf, _IOLBF, sizeof outbuf);
   iora::core::Logger::setLevel(iora::core::Logger::Level::Fatal);
   int rc = vh::runLines([&](const std::vector<std::string>& t) -> std::string {
     bool encoding = false;
